@@ -68,3 +68,55 @@ def declare4(S: Spec):
          "implies(not s.multi_operator_containers, all(ReadyPendingQueued(s, p) for p in pipelines)"
          " and all(all(ReadyPendingQueued(s, op.pipeline) for op in r.ops) for r in results))"),
     ]
+
+
+def prepare(prog):
+    """one iteration of `for job in queue:` of priority_scheduler (the placement of one waiting job), see pyvc/extract.py"""
+    import ast
+    from pyvc.extract import extract_loop_body
+    pred = lambda n: ast.unparse(n.target) == "job" and ast.unparse(n.iter) == "queue"
+    return extract_loop_body(prog, f"{MPR}:priority_scheduler", "priority_place_job", pred, ["s", "job", "pool_stats", "to_remove", "to_start"])
+
+
+def declare3(S: Spec):
+    MA = "eudoxia.executor.assignment"
+    MP = "eudoxia.workload.pipeline"
+    S.pred("StatsFull", [("s", Ref("Scheduler")), ("ps", STATS)],
+           "StatsOK(s, ps) and all('total_cpu' in ps[i] and 'total_ram' in ps[i] and ps[i]['total_cpu'] > 0 and ps[i]['total_ram'] > 0"
+           " for i in range(0, s.executor.num_pools))"
+           " and all(all(implies(i != j, ps[i] is not ps[j]) for j in range(0, s.executor.num_pools)) for i in range(0, s.executor.num_pools))")
+    S.pred("JobWF", [("j", Ref("WaitingQueueJob"))],
+           "j is not None and j.ops is not None and implies(j.retry_stats is not None, j.retry_stats.old_cpu > 0 and j.retry_stats.old_ram > 0)")
+    LAST = "to_start[len(to_start) - 1]"
+    S.fn(f"{MPR}:priority_place_job", owners=["C12", "C08"],
+         params={"s": Ref("Scheduler"), "job": Ref("WaitingQueueJob"), "pool_stats": STATS, "to_remove": List(Ref("WaitingQueueJob")),
+                 "to_start": List(Ref("Assignment"))},
+         returns=STR,
+         locals={"pool_id": INT, "op_list": List(Ref("Operator")), "rs": Ref("RetryStats"), "job_cpu": REAL, "job_ram": REAL,
+                 "cpu_ratio": REAL, "ram_ratio": REAL, "asgmnt": Ref("Assignment")},
+         requires=["StatsFull(s, pool_stats)", "JobWF(job)", "to_remove is not None and to_start is not None"],
+         ensures=[("stops-only-when-every-pool-is-out-of-cpu-or-ram",
+                   "(result == 'break') == all(not old(Usable(pool_stats, i)) for i in range(0, s.executor.num_pools))"),
+                  ("a-stopped-round-changes-nothing",
+                   "implies(result == 'break', len(to_start) == old(len(to_start)) and len(to_remove) == old(len(to_remove)))"),
+                  ("the-job-leaves-the-queue-otherwise", "implies(result != 'break', seq(to_remove) == app(old(seq(to_remove)), job))"),
+                  ("at-most-one-container-per-job", "len(to_start) == old(len(to_start)) or len(to_start) == old(len(to_start)) + 1"),
+                  ("only-a-retry-after-an-error-is-dropped",
+                   "implies(result == 'continue', len(to_start) == old(len(to_start)) and job.retry_stats is not None and job.retry_stats.error is not None)"),
+                  ("a-placed-job-is-started", "implies(result == 'next', len(to_start) == old(len(to_start)) + 1)"),
+                  ("the-container-fits-the-snapshot-and-is-charged-to-it",
+                   f"implies(len(to_start) == old(len(to_start)) + 1, {LAST}.ops is job.ops and {LAST}.priority == job.priority"
+                   f" and 0 <= {LAST}.pool_id and {LAST}.pool_id < s.executor.num_pools and {LAST}.cpu > 0 and {LAST}.ram > 0"
+                   f" and all(implies(i == {LAST}.pool_id, old(Usable(pool_stats, i))"
+                   f" and {LAST}.cpu <= old(pool_stats[i]['avail_cpu']) and {LAST}.ram <= old(pool_stats[i]['avail_ram'])"
+                   f" and pool_stats[i]['avail_cpu'] == old(pool_stats[i]['avail_cpu']) - {LAST}.cpu"
+                   f" and pool_stats[i]['avail_ram'] == old(pool_stats[i]['avail_ram']) - {LAST}.ram) for i in range(0, s.executor.num_pools)))"),
+                  ("other-pools-keep-their-figures",
+                   f"all(implies(len(to_start) == old(len(to_start)) or i != {LAST}.pool_id, pool_stats[i]['avail_cpu'] == old(pool_stats[i]['avail_cpu'])"
+                   " and pool_stats[i]['avail_ram'] == old(pool_stats[i]['avail_ram'])) for i in range(0, s.executor.num_pools))"),
+                  ("earlier-containers-kept", "take(seq(to_start), old(len(to_start))) == old(seq(to_start))")],
+         raises={"Exception": []},
+         modifies=["star('*')"], allocates=True,
+         variants={f"{MA}:Assignment.__init__": f"{MA}:Assignment.__init__#shape", f"{MP}:Pipeline.runtime_status": f"{MP}:Pipeline.runtime_status#any"},
+         note="one iteration of the job loop of priority_scheduler, extracted (continue/break of that loop become return values); "
+              "an exception (the Assignment constructor's own assertions) is allowed to escape, what it leaves behind is not constrained")
